@@ -251,7 +251,7 @@ impl<T, L: Lock> Observable<T, L> {
     /// function, before you look at its result or do anything based on that.
     #[must_use]
     pub fn subscriber_count(this: &Self) -> usize {
-        L::shared_read_count(&this.state)
+        L::shared_read_count(&this.state) / L::SUBSCRIBER_STRONG_REFS
     }
 
     /// Convert this unique `Observable` into a [`SharedObservable`].
